@@ -1084,7 +1084,7 @@ func isRootSwapper(fn *ssa.Function, a *IdxAnchors) bool {
 	}
 	for _, st := range storesToField(fn, a.WRoot) {
 		fa := st.Addr.(*ssa.FieldAddr)
-		if _, fresh := fa.X.(*ssa.Alloc); !fresh {
+		if !isFreshLocal(fa.X) {
 			return true
 		}
 	}
